@@ -1,5 +1,6 @@
 import Dia.AcceptThm
 import Dia.AcceptNI
+import Dia.AcceptFinish
 /-! # C10 - One misbehaving connection cannot disturb the others. Property theorems only.
 The listener is the labelled transition system of `Dia/Accept.lean`; a schedule is any list of labels (peers
 arriving, sending anything, the accept loop, handshakes completing or failing or never completing, connection tasks
@@ -84,6 +85,15 @@ theorem C10_serve_enabled (cfg : Cfg) (s : St) (c : Nat) (hp : s.phase c = .serv
   cases hx : s.inbox c with
   | nil => exact absurd hx hin
   | cons it rest => cases it <;> simp
+
+/-- **every served connection can finish on its own.** In any reachable state, whatever the other connections are
+doing or have done: running only connection `c`'s own steps consumes its whole pending input and leaves on `c`
+exactly the answers `c` is owed - one per request, in order, up to the first item that ends the connection. -/
+theorem C10_can_finish (cfg : Cfg) (s : St) (h : Reachable cfg s) (c : Nat) (hp : s.phase c = .serving) :
+    (serveAll cfg c (s.inbox c).length s).out c = owed (s.consumed c ++ s.inbox c) := by
+  obtain ⟨ls, hr⟩ := h
+  have hi := inv_run ls (inv_init cfg) hr
+  exact serveAll_out cfg c _ s hp (Nat.le_refl _) (hi.out_ok c) (hi.serving_ok c hp)
 
 /-- and a handshake that completes, fails or never completes concerns that connection only: completing is enabled
 whenever the connection is in its handshake -/
